@@ -8,7 +8,7 @@ LEVEL = "proof"
 def gen_case(rng, i, tier):
     k = rng.choice([1, 2, 2, 3, 3, 4, 5, 6] + ([12] if tier == "thorough" and i % 50 == 7 else []))
     links = V.gen_links(rng, k, tiny=(k > 4))
-    ops = ["case %d" % i] + links + V.gen_splits(rng, links) + ["table", "ref 0", "refpk 0", "open 0 1 %d" % rng.choice([4096, 1, 513, 100000]), "streams 0", "total 0 -1", "timetotal 0 -1", "rawtotal 0 -1"]
+    ops = ["case %d" % i] + V.with_mux(rng, links) + V.gen_splits(rng, links) + ["table", "ref 0", "refpk 0", "open 0 1 %d" % rng.choice([4096, 1, 513, 100000]), "streams 0", "total 0 -1", "timetotal 0 -1", "rawtotal 0 -1"]
     for j in range(k):
         ops += ["info 0 %d" % j, "serial 0 %d" % j, "total 0 %d" % j, "timetotal 0 %d" % j]
     ops += ["info 0 %d" % k, "total 0 %d" % k]       # one past the end: refused
